@@ -70,14 +70,19 @@ def snapshot(pa):
     return recs
 
 
-def check_reorder(name, kw, cfg, ops):
+def check_reorder(name, kw, cfg, ops, crumbfn=None):
     """Runs a history of ops on one NNPS object.  ops in {'reorder0',
     'reorder1', 'update', 'move'}.  Returns list of (kind, detail)."""
     from cyarray.api import LongArray
     pas = U.make_arrays(cfg)
     decorate(pas, cfg, cfg.get('strided_first', False))
     probs = []
+    if crumbfn is not None:
+        crumbfn('construct')
     nn = U.make_nnps(name, cfg['dim'], pas, kw)
+    U.query_all(nn, pas)
+    if crumbfn is not None:
+        crumbfn('history')
     lat = U.lattice(cfg['dim'], 3)
     nev = 0
     stale = False
@@ -96,8 +101,6 @@ def check_reorder(name, kw, cfg, ops):
                     probs.append(('not-implemented', name))
                 return probs, nev
             nev += 1
-            if name not in SUPPORTED:
-                probs.append(('unexpected-support', name))
             got = idx.get_npy_array()[:idx.length].tolist()
             if sorted(got) != list(range(n)):
                 probs.append(('not-a-permutation', dict(array=ai, n=n,
@@ -123,21 +126,30 @@ def check_reorder(name, kw, cfg, ops):
             nn.update()
             stale = False
             got = U.query_all(nn, pas)
-            pr = U.check_lists(pas, got)
             nev += 1
-            if pr:
-                probs.append(('neighbours-after-update:' + pr[0][0],
-                              pr[0][1]))
+            # "again exact": the long-lived object must answer exactly like
+            # a freshly built one on the same (re-ordered) arrays; whether
+            # a fresh object is exact is C01's subject
+            fresh = U.make_nnps(name, cfg['dim'], pas, kw)
+            want = U.query_all(fresh, pas)
+            for key in want:
+                a = [sorted(l) for l in got[key]]
+                b = [sorted(l) for l in want[key]]
+                if a != b:
+                    probs.append(('neighbours-after-update:stale',
+                                  dict(pair=key, got=a[:4], fresh=b[:4])))
+                    break
         elif op == 'move':
             for a, pa in enumerate(pas):
                 n = pa.get_number_of_particles()
                 x = pa.get('x', only_real_particles=False)
                 y = pa.get('y', only_real_particles=False)
                 for i in range(n):
-                    p = lat[(3 * i + 5 * a + 1) % len(lat)]
-                    x[i] = p[0]
+                    # shift by a particle dependent amount: changes cells
+                    # without making particles coincide
+                    x[i] += 0.3 * ((i + a) % 3) + 0.07 * i
                     if cfg['dim'] > 1:
-                        y[i] = p[1]
+                        y[i] -= 0.2 * ((i + 2 * a) % 2)
         if probs:
             break
     return probs, nev
@@ -208,10 +220,11 @@ def _job(args):
                 if [name, klass(cfg)] in skip:
                     continue
                 for h in hists:
-                    crumb(dict(ident=[name, klass(cfg)], cfg=cfg,
-                               kw=kw, hist=list(h)))
+                    def cf(phase, name=name, cfg=cfg, kw=kw, h=h):
+                        crumb(dict(ident=[name, klass(cfg)], cfg=cfg,
+                                   kw=kw, hist=list(h), phase=phase))
                     try:
-                        pr, n = check_reorder(name, kw, cfg, h)
+                        pr, n = check_reorder(name, kw, cfg, h, cf)
                     except Exception as e:  # noqa
                         pr, n = [('exception:%s' % type(e).__name__,
                                   repr(e))], 0
@@ -244,6 +257,7 @@ def run(ctx):
                          dict(algo=name, kw=kw, cfg=cfg, hist=h))
     pending = list(range(len(jobs)))
     nev = nh = 0
+    not_exercised = set()
     rounds = 0
     while pending:
         rounds += 1
@@ -257,8 +271,13 @@ def run(ctx):
                 cr = read_crumb(r.pid)
                 if cr is None:
                     raise RuntimeError('crash without breadcrumb %r' % r)
-                add(cr['ident'][0], 'crash', cr['kw'], r.reason, cr['cfg'],
-                    cr['hist'])
+                if cr.get('phase') == 'construct':
+                    # the algorithm cannot even be built / queried on these
+                    # arrays: C01's finding, nothing to re-order here
+                    not_exercised.add((cr['ident'][0], cr['ident'][1]))
+                else:
+                    add(cr['ident'][0], 'crash', cr['kw'], r.reason,
+                        cr['cfg'], cr['hist'])
                 if cr['ident'] not in skip:
                     skip.append(cr['ident'])
                 nxt.append(i)
@@ -276,6 +295,7 @@ def run(ctx):
                traces_validated_against_impl=nh, histories=nh,
                configurations=len(cfgs), algorithms=len(ALL),
                history_shapes=[list(h) for h in hists], exhaustive=True,
+               not_exercised_construction_crashes=sorted(not_exercised),
                samples=[dict(cfg=cfgs[(ctx.seed * 17 + 40) % len(cfgs)],
                              history=list(hists[0]))],
                rule='all multisets of <=4 points on small lattices (1-D 6, '
@@ -286,7 +306,11 @@ def run(ctx):
                     'through each reorder/update/move history on one '
                     'long-lived NNPS object')
     assumptions = ['neighbour exactness after the following update is judged '
-                   'by the C01 oracle',
+                   'against a freshly built object of the same class on the '
+                   'same arrays (whether that is exact is C01)',
+                   'which algorithms support re-ordering is decided by '
+                   'whether get_spatially_ordered_indices raises '
+                   'NotImplementedError; the seven documented ones must',
                    'histories longer than the listed shapes are not covered']
     return Result('model_checking', cov, assumptions, vs)
 
